@@ -1,6 +1,7 @@
 package sym
 
 import (
+	"time"
 	"runtime"
 	"fmt"
 	"go/token"
@@ -287,6 +288,9 @@ func (m *Machine) runFrame(fr *frame) {
 		for _, instr := range nonPhis {
 			m.steps++
 			fr.curInstr = instr
+			if m.steps&0xffff == 0 && m.cfg.MaxPathSecs > 0 && time.Since(m.pathStart) > time.Duration(m.cfg.MaxPathSecs)*time.Second {
+				m.end(EndUnwind, "path time limit %ds exceeded in %s", m.cfg.MaxPathSecs, fr.fn)
+			}
 			if m.steps > m.cfg.MaxSteps {
 				m.end(EndUnwind, "step limit %d exceeded in %s", m.cfg.MaxSteps, fr.fn)
 			}
